@@ -103,8 +103,9 @@ class ART2A(BaseART):
             The dataset.
 
         """
+        # alpha may have been replaced through set_params since the last call
+        assert self.params["alpha"] <= 1 / np.sqrt(X.shape[1])
         if not hasattr(self, "dim_"):
-            assert self.params["alpha"] <= 1 / np.sqrt(X.shape[1])
             self.dim_ = X.shape[1]
         else:
             assert X.shape[1] == self.dim_
